@@ -73,7 +73,10 @@ def _run(pid, tier):
                 continue
             ops2 = mgmodel.op_alphabet(ad.geo, rng, rich=False)
             if quick:
-                ops2 = rng.sample(ops2, min(len(ops2), 5))
+                # (a first operation that leaves something for a later one to tidy up is always followed by the operations
+                # that promise a valid mesh)
+                keep2 = [o for o in ops2 if o["op"] in ("reduce", "check")] if a["op"] in ("delete_column", "add_node", "connect") else []
+                ops2 = rng.sample(ops2, min(len(ops2), 5)) + keep2
             for b in ops2:
                 ad2 = copy.deepcopy(ad)
                 t2 = t1[:-1] + [dict(t1[-1])] + mgmodel.record(ad2, [b])[1:]
@@ -145,7 +148,7 @@ def _run(pid, tier):
                 meta.append(("poly%d" % (4 + k), t))
                 geo = mgmodel.poly_mesh(mm, 0, sides, rot)
                 ad = mgmodel.Adapter(geo)
-                t = mgmodel.record(ad, [{"op": "decompose_columns", "args": [[]]}])
+                t = mgmodel.record(ad, [{"op": "decompose_columns", "args": [[], 0, rot % 2 == 1]}])
                 traces.append(t)
                 meta.append(("poly%d" % (4 + k), t))
                 if rot == 0:
